@@ -8,6 +8,7 @@
 //! A summary JSON is written to stderr as the last line.
 
 mod common;
+mod mutex;
 mod sem;
 
 use common::*;
@@ -16,6 +17,7 @@ use std::io::{Read, Write};
 fn maker(prim: &str) -> Option<Maker> {
     match prim {
         "sem" => Some(sem::make),
+        "mutex" => Some(mutex::make),
         _ => None,
     }
 }
@@ -23,6 +25,7 @@ fn maker(prim: &str) -> Option<Maker> {
 fn new_lines(prim: &str) -> Vec<String> {
     match prim {
         "sem" => [0, 1, 1, 2, 3].iter().map(|n| format!("new sem {}", n)).collect(),
+        "mutex" => vec!["new mutex".to_string()],
         _ => vec![],
     }
 }
@@ -30,7 +33,9 @@ fn new_lines(prim: &str) -> Vec<String> {
 fn main() {
     let args: Vec<String> = std::env::args().collect();
     let stdout = std::io::stdout();
-    let mut out = std::io::BufWriter::with_capacity(1 << 20, stdout.lock());
+    // HARNESS_FLUSH=1: line-buffered output, so that the history leading to a crash is not lost
+    let cap = if std::env::var("HARNESS_FLUSH").is_ok() { 1 } else { 1 << 20 };
+    let mut out = std::io::BufWriter::with_capacity(cap, stdout.lock());
     let mut stats = Stats::new();
     match args.get(1).map(|s| s.as_str()) {
         Some("dfs") => {
